@@ -383,4 +383,57 @@ inline void pool_nested(const vf::opts &o, vf::report &R, uint64_t rounds) {
     }
 }
 
+// ---------------------------------------------------------------------------------------------
+// Jobs that depend on each other: m <= workers jobs are submitted back to back; job i blocks its worker until job i+1 has started
+// (legal: there are enough workers). Every submission must therefore reach an idle worker of its own - a submission that wakes
+// nobody leaves a job queued for ever while a worker sits idle (hang verdict).
+inline cocls::async<void> pd_await_pool(cocls::thread_pool &A, std::atomic<int> *started, std::atomic<int> *next_started, std::atomic<int> &done) {
+    co_await A;
+    started->store(1, std::memory_order_release);
+    unsigned spins = 0;
+    while (next_started && !next_started->load(std::memory_order_acquire)) { if (++spins < 2000) vf::cpu_relax(); else usleep(100); }
+    done.fetch_add(1, std::memory_order_relaxed);
+}
+inline void pool_dependent(const vf::opts &o, vf::report &R, uint64_t rounds) {
+    vf::rng master(vf::mix(o.seed, 0x311));
+    for (uint64_t rn = 0; rn < rounds && R.nviol() < 5; rn++) {
+        vf::rng r(master.next());
+        int nw = 2 + (int)r.below(3), m = 2 + (int)r.below((uint32_t)nw - 1);
+        int kinds[4]; std::string desc = "workers=" + std::to_string(nw) + " chain:";
+        for (int i = 0; i < m; i++) { kinds[i] = (int)r.below(3); desc += std::string(" ") + (kinds[i] == 0 ? "run_detached" : kinds[i] == 1 ? "run(fn)" : "co_await pool"); }
+        int warm = (int)r.below(3); // sometimes the workers have already run something and went back to sleep
+        vf::set_crash_ctx(R.prop.c_str(), "pool_dependent", o.seed, rn, desc.c_str());
+        std::atomic<int> started[4], done{0};
+        for (auto &x : started) x = 0;
+        {
+            cocls::thread_pool A((unsigned)nw);
+            for (int i = 0; i < warm; i++) { cocls::future<int> f = A.run([]() -> int { return 1; }); f.sync(); }
+            if (warm && r.chance(1, 2)) usleep(200);
+            std::vector<std::unique_ptr<cocls::future<int>>> futs;
+            for (int i = 0; i < m; i++) {
+                std::atomic<int> *me = &started[i], *next = i + 1 < m ? &started[i + 1] : nullptr;
+                auto body = [me, next, &done]() {
+                    me->store(1, std::memory_order_release);
+                    unsigned spins = 0;
+                    while (next && !next->load(std::memory_order_acquire)) { if (++spins < 2000) vf::cpu_relax(); else usleep(100); }
+                    done.fetch_add(1, std::memory_order_relaxed);
+                };
+                // (callables handed over as LVALUES are kept by reference by the library's function wrapper - hand over a copy as an rvalue)
+                if (kinds[i] == 0) { auto copy = body; A.run_detached(std::move(copy)); }
+                else if (kinds[i] == 1) futs.push_back(std::unique_ptr<cocls::future<int>>(new cocls::future<int>(A.run([body]() -> int { body(); return 5; }))));
+                else pd_await_pool(A, me, next, done).detach();
+            }
+            unsigned spins = 0;
+            while (done.load(std::memory_order_relaxed) < m) { if (++spins < 4000) vf::cpu_relax(); else usleep(200); } // watchdog: no progress + everybody asleep = hang
+            for (auto &f : futs) f->sync();
+        }
+        R.cases++;
+        if (done.load() != m) { R.violation("monitor:exactly_once|pool_dependent", "jobs completed " + std::to_string(done.load()) + " times, expected " + std::to_string(m), vf::jobj().kv("round", (unsigned long long)rn).kv("desc", desc).str()); continue; }
+        R.nontrivial_cases++;
+        R.sig(desc + " warm" + std::to_string(warm));
+        R.cls("chains_of_dependent_jobs_completed");
+        if (R.samples.size() < 2) R.sample(vf::jobj().kv("round", desc).kv("result", "every job reached a worker of its own").str());
+    }
+}
+
 } // namespace scn
